@@ -1,5 +1,6 @@
 import GeoVerif.Driver.Util
 import GeoVerif.Model.Concat
+import GeoVerif.Model.Table
 namespace GeoVerif.Driver.ConcatD
 open Lean GeoVerif.Concat GeoVerif.Driver
 
@@ -9,7 +10,8 @@ def chanJson (c : Chan String) (kd : Bool) : Json :=
   Json.mkObj [
     ("rows", ofList (c.rows.map fun r => ofNats [r.start, r.size, r.obj, r.dat])),
     ("data", ofStrs c.data),
-    ("tiled", Json.bool (tiledCheck kd c))]
+    ("tiled", Json.bool (tiledCheck kd c)),
+    ("objNodup", Json.bool (objNodupCheck c))]
 
 def parseChan (j : Json) : Chan String :=
   { rows := (jarr j "rows").map fun r =>
@@ -24,7 +26,13 @@ def handle (s : St) (j : Json) : St × Json :=
   | "put" =>
     let l := jstr j "label"; let kd := jbool j "kd"
     let s' := s.step (.put l kd (jnat j "o") (jnat j "d") (jstrs j "v"))
-    (s', match s'.find? l with | some c => chanJson c kd | none => Json.null)
+    -- the hypothesis `WellKeyed` of `run_tinv`, evaluated on the state before the call
+    let wk := !kd || (match s.find? l with
+      | some c => c.rows.all fun r => r.obj != jnat j "o" || r.dat == jnat j "d"
+      | none => true)
+    (s', match s'.find? l with
+         | some c => (chanJson c kd).setObjVal! "wk" (Json.bool wk)
+         | none => Json.null)
   | "drop" =>
     let l := jstr j "label"; let kd := jbool j "kd"
     let s' := s.step (.drop l kd (jnat j "u"))
@@ -38,6 +46,13 @@ def handle (s : St) (j : Json) : St × Json :=
     let l := jstr j "label"; let kd := jbool j "kd"
     let c := parseChan j
     (s.set l c, chanJson c kd)
+  | "table" =>   -- the group-wide table view computed from the model's channels
+    let assoc := jstr j "assoc"
+    let names := jstrs j "names"
+    let ndvs := (jarr j "ndv").map fun p => match asArr p with | [a, b] => (asStr a, asStr b) | _ => ("", "")
+    let ndv := fun nm => ((ndvs.find? (fun p => p.1 == nm)).map (·.2)).getD "nan"
+    (s, ofList ((table s ndv assoc names).map fun row => Json.mkObj [("o", Json.num (JsonNumber.fromNat row.1)), ("v", ofStrs row.2)]))
+  | "holes" => (s, ofNats (holesInOrder s (jstr j "assoc")))
   | "check" =>  -- judge rows/data of the real file with the theorem's predicate
     (s, Json.bool (tiledCheck (jbool j "kd") (parseChan j)))
   | _ => (s, Json.str "bad-op")
